@@ -9,7 +9,7 @@ import vts, stack as S
 
 S_ADDR = 0xD4
 PGN = dict(DM14=55552, DM15=55296, DM16=55040)
-EXC = {'IndexError': 1, 'AttributeError': 2, 'ValueError': 3, 'TypeError': 4, 'Empty': 5}
+EXC = {'IndexError': 1, 'AttributeError': 2, 'ValueError': 3, 'TypeError': 4, 'Empty': 5, 'RuntimeWarning': 6}
 NONE = -1
 
 
@@ -46,6 +46,21 @@ class Rig:
             self.ma.set_proceed(self._proceed)
         self.ma.set_notify(self._notify)
         self.during = []
+
+        # the node's own query: the real facade code (state WAIT_QUERY, try/finally) runs; the Dm14Query underneath is
+        # replaced by the delivery of the messages that arrive while it would wait (the query itself: harness/dm14cli.py)
+        def stub(result):
+            def f(*a, **k):
+                for (pgn, sa, data) in self.during:
+                    try:
+                        self.deliver(pgn, sa, data)
+                    except Exception:
+                        pass
+                self.during = []
+                return result
+            return f
+        self.ma.query.read = stub([])
+        self.ma.query.write = stub(None)
         q = self.ma.server.data_queue
         orig_get = q.get
 
@@ -113,6 +128,13 @@ class Rig:
                 ret = [0] if r is None else [1] + flat_list(r)
             elif op[0] == 'reset':
                 self.ma.reset_query()
+            elif op[0] == 'query':
+                self.during = [tuple(x) for x in op[2]]
+                if op[1]:
+                    r = self.ma.read(0xD0, 1, 0x1000, 1)
+                    ret = [1] + flat_list(r)
+                else:
+                    self.ma.write(0xD0, 1, 0x1000, [1])
         except _queue.Empty:
             ret = [2, EXC['Empty']]
         except Exception as ex:
@@ -216,6 +238,10 @@ def gen_case(rng, malformed=False):
         ops += steps
     if rng.random() < 0.15:
         ops.append(('respond', True, [1, 2, 3], 0xFFFFFF, 0xFF, []))
+    # the node's own read()/write() with requests of other nodes arriving meanwhile, at any point of the history
+    for _ in range(rng.choice([0, 0, 1, 2])):
+        du = [tuple(intruder()[1:]) for _ in range(rng.randint(0, 3))]
+        ops.insert(rng.randint(0, len(ops)), ('query', rng.random() < 0.5, du))
     return dict(seedsec=seedsec, hasproceed=hasproceed, seeds=seeds, answers=answers, ops=ops)
 
 
@@ -230,6 +256,9 @@ def op_coq(op):
     if op[0] == 'respond':
         du = '[' + '; '.join('(%d, %d, %s)' % (p, s, zl(d)) for (p, s, d) in op[5]) + ']'
         return '(OpRespond %s %s %d %d %s)' % ('true' if op[1] else 'false', zl(op[2]), op[3], op[4], du)
+    if op[0] == 'query':
+        du = '[' + '; '.join('(%d, %d, %s)' % (p, s, zl(d)) for (p, s, d) in op[2]) + ']'
+        return '(OpQuery %s %s)' % ('true' if op[1] else 'false', du)
     return 'OpReset'
 
 
@@ -382,6 +411,9 @@ def check_theorems(case, recs, init_summary):
                 if list(post) != list(pre) or bad_out:
                     v.append(('C19', 'intruder-changes-the-running-transaction' if list(post) != list(pre) else 'intruder-causes-other-output', i,
                               dict(op=op, requester=dpre['sa'], state_before=dpre, outputs=outs[:3])))
+        if op[0] == 'query' and dpre['a_state'] == 1:
+            if any(o[0] in ('proceed', 'notify') for o in outs):
+                v.append(('C19', 'request-passed-to-the-application-while-the-node-is-itself-querying', i, dict(op=op, outputs=outs[:3])))
         if case['seedsec'] and op[0] == 'msg':
             for o in outs:
                 if o[0] == 'proceed' and key_fn(o[9]) != o[6]:
